@@ -173,6 +173,15 @@ def c18_4(c: Ctx) -> None:
             c.ok(where(u, rn.ast), f'returns `{U(v)[:60]}`')
         else:
             c.fail(u, f'returns {U(v)[:60] if v is not None else None}', 'expect() returns something other than the event the future was resolved with', node=rn.ast)
+    # the un-timed wait is taken only for timeout=None: timeout=0 / 0.0 is a timeout (poll once), not "wait forever"
+    untimed = [n for n in g.live_nodes() if n.ast is not None and any(isinstance(x, ast.Await) and U(x.value) == fut for h in q.node_exprs(n) for x in ast.walk(h))]
+    f_to = Facts(lambda a: a == 'timeout', cg=c.cg, unit=u)
+    for n in untimed:
+        p = q.guard_search(g, n, 'timeout is None', f_to)
+        if p is None:
+            c.ok(where(u, n.ast), 'the future is awaited without a timeout only when timeout is None')
+        else:
+            c.fail(u, f'`{n.text(60)}` (no timeout) reachable with timeout not None', 'expect(timeout=0) (or any falsy timeout) waits forever instead of raising TimeoutError', node=n.ast, witness=c.path(g.entry, p))
     wf = [n for n in own_nodes(u.node) if isinstance(n, ast.Call) and call_name(n) == 'wait_for' and n.args and U(n.args[0]) == fut]
     if wf:
         to = q.kw(wf[0], 'timeout') or (wf[0].args[1] if len(wf[0].args) > 1 else None)
